@@ -341,6 +341,59 @@ fn run_near_colliding_tags(cx: &mut CaseCx, _case: &Value) {
   cx.outcome("near-colliding tags aggregate separately");
 }
 
+
+/// boundary search on an internal value: measurements whose sharing key has a zero / 0xff boundary byte are
+/// aggregated next to ordinary ones; they must be revealed like any other
+fn run_boundary_keys(cx: &mut CaseCx, case: &Value) {
+  let t = case["t"].as_u64().unwrap() as u32;
+  let lo = case["lo"].as_u64().unwrap();
+  let epoch = "t";
+  let (found, examined) = super::c01::boundary_key_measurements("measurement-", epoch.as_bytes(), t, lo, 400);
+  cx.count("keys_examined", examined);
+  cx.count("boundary_keys_found", found.len() as u64);
+  if found.is_empty() {
+    return;
+  }
+  let mut reps: Vec<Rep> = vec![];
+  let mut k = 0usize;
+  for (gi, (meas, _)) in found.iter().enumerate() {
+    let rnd = local_randomness(meas, epoch.as_bytes(), t);
+    // exactly t, t+1 or t-1 reports
+    let cnt = match gi % 3 { 0 => t as usize, 1 => t as usize + 1, _ => t as usize - 1 };
+    for _ in 0..cnt {
+      getrandom::verif::set_group(k as u32 + 1);
+      let aux = aux_for(k);
+      if let Ok(msg) = gen_report(meas, epoch.as_bytes(), t, &rnd, &aux) {
+        if let Some(x) = share_x(&msg.share.to_bytes()) {
+          reps.push(Rep { msg, meas: meas.clone(), aux, x });
+        }
+      }
+      k += 1;
+    }
+  }
+  let server = AggregationServer::new(t, epoch);
+  let all: Vec<&Rep> = reps.iter().collect();
+  let want = expected(&all, t);
+  cx.nontrivial(fnv_str(&case.to_string()));
+  for (pn, pool) in pools(&[1, 4]) {
+    for rev in [false, true] {
+      let mut msgs: Vec<Message> = reps.iter().map(|r| r.msg.clone()).collect();
+      if rev {
+        msgs.reverse();
+      }
+      if !judge(cx, observe(&server, &pool, &msgs), &want, &|| json!({"t": t, "groups": found.len(), "worker_threads": pn, "reversed": rev, "note": "every measurement of this batch has a sharing key with a 0x00 / 0xff boundary byte"})) {
+        if let Some(v) = cx.viols.last_mut() {
+          v.key = format!("{}/boundary-key", v.key);
+          v.what = format!("batch of measurements whose sharing keys have a zero / 0xff boundary byte: {}", v.what);
+        }
+        return;
+      }
+    }
+  }
+  cx.count("revealed_groups", want.len() as u64);
+  cx.outcome("boundary keys revealed");
+}
+
 /// magnitudes: associated data beyond 64 KiB, thresholds in the hundreds
 fn run_magnitudes(cx: &mut CaseCx, case: &Value) {
   let t = case["t"].as_u64().unwrap() as u32;
@@ -574,6 +627,21 @@ pub fn spec() -> PropSpec {
         gen: |_| vec![json!({})],
         run: run_near_colliding_tags,
         min_counts: &[("near_collision_aggregations", 100), ("best_leading_agreement_bytes", 4)],
+      },
+      Check {
+        name: "boundary-keys",
+        rule: "boundary search on an internal value: of 1600 measurements per threshold (t in {2,3}) those whose 16-byte sharing key has a 0x00 / 0xff boundary byte or a zero pair, with t, t+1 or t-1 reports each, aggregated in one batch (forwards / reversed, 1 and 4 workers): revealed iff >= t reports, with their clients' associated data",
+        gen: |_| {
+          let mut v = vec![];
+          for t in [2u64, 3] {
+            for c in 0..4u64 {
+              v.push(json!({"t": t, "lo": c * 400}));
+            }
+          }
+          v
+        },
+        run: run_boundary_keys,
+        min_counts: &[("boundary_keys_found", 35), ("revealed_groups", 20)],
       },
       Check {
         name: "magnitudes",
